@@ -21,7 +21,7 @@ type assertSite struct {
 func (c *Ctx) uncheckedAsserts(pkgs ...string) []assertSite {
 	var out []assertSite
 	for _, pk := range pkgs {
-		for _, fi := range c.P.LibFuncs(pk) {
+		for _, fi := range c.P.LibFuncsAll(pk) {
 			if fi.Decl.Body == nil {
 				continue
 			}
